@@ -99,6 +99,8 @@ def run(tier, seed, replay=None):
         run_case(run, drv, files, c["pl"], c["single"], "replay")
         settle_model(run, drv)
         return run.finish()
+    for files, pl, single in cr.corner_cases():
+        run_case(run, drv, files, pl, single, "corner")
     for _ in range(60 if tier == "quick" else 600):
         files, pl, single = cr.make_case(run.rng, tier)
         run_case(run, drv, files, pl, single, "random")
